@@ -100,6 +100,11 @@ func isParked(g G) bool {
 		// passes context.Background()): only another goroutine returning its connection ends it
 		return true
 	}
+	if g.State == "select" && strings.Contains(g.Stack, "\nio.(*pipe).") {
+		// io.Pipe selects over its own channels only (no timer): a reader or writer whose peer is
+		// gone stays there for ever
+		return true
+	}
 	if foreignWait(g) {
 		// blocked on a channel or lock that belongs to a standard-library component with helper
 		// goroutines of its own (net/http's body reader waits for its connection's read loop to
@@ -117,7 +122,7 @@ func isParked(g G) bool {
 }
 
 // foreignWait reports whether the innermost frame that is not runtime / sync plumbing belongs to
-// net, net/http, os, io or database/sql.
+// net, net/http, os, crypto or database/sql.
 func foreignWait(g G) bool {
 	lines := strings.Split(g.Stack, "\n")
 	for i := 1; i < len(lines); i += 2 {
@@ -125,7 +130,9 @@ func foreignWait(g G) bool {
 		if strings.HasPrefix(fn, "runtime.") || strings.HasPrefix(fn, "sync.") || strings.HasPrefix(fn, "internal/") || strings.HasPrefix(fn, "sync/") {
 			continue
 		}
-		for _, p := range []string{"net/", "net.", "os.", "os/", "io.", "database/sql", "crypto/", "bufio."} {
+		// (io.Pipe and bufio keep no goroutines of their own: a wait inside them is an ordinary
+		// channel / lock wait between the caller's goroutines)
+		for _, p := range []string{"net/", "net.", "os.", "os/", "database/sql", "crypto/"} {
 			if strings.HasPrefix(fn, p) {
 				return true
 			}
